@@ -1,6 +1,7 @@
 """Orchestration: build, fan out worker processes, collect, minimise, replay, evidence."""
 import json
 import os
+import re
 import shutil
 import signal
 import subprocess
@@ -26,6 +27,20 @@ class HarnessError(Exception):
     pass
 
 
+class CorpusRejected(HarnessError):
+    """The corpus of legal user programs (traits, groups, implementors, cast requests: files that
+    use nothing but cglue's public macros and API) no longer compiles against /repo, and every
+    compiler error points into those files — not into the harness plumbing around them."""
+    def __init__(self, package, message, locations):
+        HarnessError.__init__(self, "the corpus of %s is rejected by the compiler" % package)
+        self.package = package
+        self.message = message
+        self.locations = locations
+
+
+CORPUS_FILES = ("objsim/src/corpus.rs", "objsim/src/groups_gen.rs", "objsim/src/implementors_gen.rs")
+
+
 def log(msg):
     print(msg, flush=True)
 
@@ -48,6 +63,15 @@ def cargo_build(package, release=False):
     p = subprocess.run(cmd, cwd=SIM, env=CARGO_ENV, stdout=subprocess.PIPE, stderr=subprocess.STDOUT, text=True)
     if p.returncode != 0:
         tail = "\n".join(p.stdout.splitlines()[-40:])
+        locs = re.findall(r"^\s*--> (\S+?):(\d+):\d+", p.stdout, re.M)
+        first_of_each_error = []
+        for block in re.split(r"^error", p.stdout, flags=re.M)[1:]:
+            m = re.search(r"^\s*--> (\S+?):(\d+):\d+", block, re.M)
+            if m:
+                first_of_each_error.append("%s:%s" % (m.group(1), m.group(2)))
+        if first_of_each_error and all(any(l.startswith(c) for c in CORPUS_FILES) for l in first_of_each_error):
+            errs = [l for l in p.stdout.splitlines() if l.startswith("error")]
+            raise CorpusRejected(package, " | ".join(errs[:4]), sorted(set(first_of_each_error))[:8])
         raise HarnessError("build of %s failed (harness no longer compiles against %s):\n%s" % (package, REPO, tail))
     _built.add(key)
     log("# built %s (%s) in %.1fs" % (package, "release" if release else "debug", time.time() - t0))
@@ -685,6 +709,18 @@ def run_property(prop, tier, seed):
     for job in spec["jobs"]:
         try:
             violations += run_job(prop, job, tier, seed, report, spec)
+        except CorpusRejected as e:
+            # legal programs of the quantifier's domain that the generator no longer turns into
+            # compiling code: nothing about their behaviour can hold
+            os.makedirs(os.path.join(REPLAYS, prop), exist_ok=True)
+            path = os.path.join(REPLAYS, prop, "build-%s.json" % e.package)
+            with open(path, "w") as f:
+                json.dump({"kind": "build", "property": prop, "tier": tier, "package": e.package, "job": job.label,
+                           "violation": {"class": "build.corpus_rejected", "site": e.locations[0] if e.locations else e.package, "message": e.message},
+                           "locations": e.locations}, f, indent=1, sort_keys=True)
+                f.write("\n")
+            violations.append({"replay": path, "class": "build.corpus_rejected", "msg": "the corpus of legal traits/groups/cast requests no longer compiles against /repo (every error is in %s): %s" % (", ".join(e.locations[:3]), e.message[:300])})
+            break
         except HarnessError as e:
             # an engine that no longer builds must not hide what the other engines found
             deferred = e
@@ -727,6 +763,17 @@ def replay(prop, path):
             log("#   class=%s in run %d of the range" % (got, doc["to"] - 1))
             return 1
         log("# replay did not fail: the recorded violation (%s) does not occur on this tree" % doc["violation"]["class"])
+        return 0
+    if doc.get("kind") == "build":
+        from properties import ALL_JOBS
+        job = [j for j in ALL_JOBS if j.label == doc.get("job")][0]
+        try:
+            job.build(doc.get("tier", "quick"))
+        except CorpusRejected as e:
+            log("VIOLATION property=%s replay=%s" % (prop, path))
+            log("#   class=build.corpus_rejected: %s" % e.message[:300])
+            return 1
+        log("# replay did not fail: the corpus compiles against this tree")
         return 0
     if doc.get("kind") and doc["kind"] != "plan":
         from properties import replay_special
